@@ -613,6 +613,9 @@ func (env *Env) binary(x *EBinary) Val {
 	if a.G.T == nil {
 		sfail("operator %s on ghost value", x.Op)
 	}
+	if sa, sb := env.g.sortOfG(a.G), env.g.sortOfG(b.G); sa != sb && x.Op != "<<" && x.Op != ">>" {
+		sfail("operands of %s have different sorts (%s vs %s): for an error compared with a package variable use box(...)", x.Op, sa, sb)
+	}
 	res := env.ex.binop(tk, a.G.T, a.S, b.S, b.G.T)
 	switch x.Op {
 	case "==", "!=", "<", "<=", ">", ">=":
@@ -921,6 +924,9 @@ func (env *Env) call(c *ECall) Val {
 				return Val{pc, tBool}
 			}
 		}
+		if env.ex.fn != nil && fnHasCallee(env.ex.fn, cid.Name) {
+			return Val{"false", tBool} // that call comes later in program order (or is unreachable): not executed on this path
+		}
 		sfail("called: no call %s#%d on record", cid.Name, n)
 	case "callres": // callres(Callee, n, i): i-th result of the n-th call of Callee in this function
 		need(3)
@@ -1009,6 +1015,17 @@ func (env *Env) call(c *ECall) Val {
 		return Val{fmt.Sprint(g.typeTag(gt.T)), tInt}
 	}
 	return env.callNamed(id.Name, c.Args)
+}
+
+func fnHasCallee(fn *ssa.Function, short string) bool {
+	for _, b := range fn.Blocks {
+		for _, in := range b.Instrs {
+			if ci, ok := in.(ssa.CallInstruction); ok && calleeShortName(ci.Common()) == short {
+				return true
+			}
+		}
+	}
+	return false
 }
 
 func (g *Gen) setOps(es string) {
